@@ -4,7 +4,7 @@ import itertools
 
 import z3
 
-from yv.engine import explore, harness, real, stubs
+from yv.engine import npshim, explore, harness, real, stubs
 from yv.engine.real import S, Ctx
 from yv.props import common as cm
 
@@ -185,13 +185,21 @@ def run(chk, only=None):
                 if not chk.mine(f"apply{sub}"):
                     continue
                 pattern = list(sub) + [3, -4, 21]
-                with Ctx(chk.seed) as ctx:
-                    Z = ctx.var("Z", None, None, wlo=0, whi=100)
-                    A = ctx.var("A", None, None, wlo=1, whi=250)
-                    ctx.domain.append(A.t != 0)
-                    W = {p: ctx.var(f"w{p}", None, None, wlo=-3, whi=3) for p in PIDS}
-                    F = {p: ctx.var(f"f{p}", None, None, wlo=0, whi=3) for p in PIDS}
-                    prs = pairs_apply(pattern, W, Z, A, F)
+                import yadism.coefficient_functions as cfmod
+
+                with Ctx(chk.seed) as ctx, npshim.patched((cfmod, "np", npshim.NPShim())):
+                    def body(pattern=pattern):
+                        Z = ctx.var("Z", None, None, wlo=0, whi=100)
+                        A = ctx.var("A", None, None, wlo=1, whi=250)
+                        W = {p: ctx.var(f"w{p}", None, None, wlo=-3, whi=3) for p in PIDS}
+                        F = {p: ctx.var(f"f{p}", None, None, wlo=0, whi=3) for p in PIDS}
+                        return pairs_apply(pattern, W, Z, A, F)
+
+                    A0 = ctx.var("A", None, None, wlo=1, whi=250)
+                    ctx.domain.append(A0.t != 0)
+                    # the rotation is straight-line code; any branch on Z, A or the weights (a shortcut, a tolerance) is explored
+                    paths = explore.Explorer(ctx, max_paths=32, timeout_ms=3000).run(body)
+                    chk.paths += len(paths)
 
                     def rp_for(lab, ctx=ctx, pattern=pattern):
                         def rp(model):
@@ -201,9 +209,16 @@ def run(chk, only=None):
                                                  Z=g("Z"), A=g("A"), label=lab)
                         return rp
 
-                    harness.prove_pairs(chk, f"apply_isospin:keys={sub}", prs, ctx.facts(), rp_for,
-                                        lambda lab, sub=sub: f"apply:{sub}:{lab}",
-                                        sample={"pattern": pattern, "claim": "sum_p w'_p f_p == sum_p w_p f'_p for all Z, A!=0, w, f"})
+                    for pi, p_ in enumerate(paths):
+                        ctx.assign = dict(p_.assign)
+                        if p_.kind != "ok":
+                            chk.obligations += 1
+                            chk.report(f"apply:{sub}:raise", f"apply_isospin:keys={sub}: raises {type(p_.value).__name__}: {str(p_.value)[:100]}", "apply",
+                                       rp_for("raise")(None)[1])
+                            continue
+                        harness.prove_pairs(chk, f"apply_isospin:keys={sub}" + (f"/path{pi}" if pi else ""), p_.value, ctx.facts() + p_.pc, rp_for,
+                                            lambda lab, sub=sub: f"apply:{sub}:{lab}",
+                                            sample={"pattern": pattern, "claim": "sum_p w'_p f_p == sum_p w_p f'_p for all Z, A!=0, w, f"})
         with Ctx(chk.seed) as ctx:
             Z = ctx.var("Z", None, None)
             A = ctx.var("A", None, None)
